@@ -202,6 +202,9 @@ pub fn arb_prov() -> impl Strategy<Value = Prov> {
         1 => any::<bool>().prop_map(Prov::ShiftInOut),
         1 => Just(Prov::BytesTrunc),
         1 => any::<bool>().prop_map(Prov::ReadSurplus),
+        1 => (0..NT).prop_map(Prov::AddVec),
+        1 => arb_nat_ty().prop_map(Prov::SubNat),
+        1 => (0..NT).prop_map(Prov::OrLonger),
     ]
 }
 
@@ -248,8 +251,8 @@ pub fn nat_lattice(ty: NatTy) -> Vec<u128> {
         let p = 1u128 << k;
         v.extend([p - 1, p, p + 1]);
     }
-    v.extend([ty.max() - 1, ty.max()]);
-    v.retain(|&x| x <= ty.max());
+    v.extend([ty.maxv() - 1, ty.maxv()]);
+    v.retain(|&x| x <= ty.maxv());
     v.sort();
     v.dedup();
     v
